@@ -89,6 +89,93 @@ def mut_norm(m):
     return sorted((x.get("input"), x.get("what"), tuple(x.get("shape") or [])) for x in (m or []))
 
 
+def _safe(f):
+    def g(x):
+        try:
+            return f(x)
+        except ValueError:
+            return math.nan
+        except OverflowError:
+            return math.inf
+    return g
+
+
+def _sigmoid(x):
+    if math.isnan(x):
+        return math.nan
+    if x >= 0:
+        return 1.0 / (1.0 + math.exp(-x))
+    e = math.exp(x)
+    return e / (1.0 + e)
+
+
+def _cosh(x):
+    try:
+        return math.cosh(x)
+    except OverflowError:
+        return math.inf
+
+
+def _sinh(x):
+    try:
+        return math.sinh(x)
+    except OverflowError:
+        return math.copysign(math.inf, x)
+
+
+def _atanh(x):
+    if x == 1.0:
+        return math.inf
+    if x == -1.0:
+        return -math.inf
+    try:
+        return math.atanh(x)
+    except ValueError:
+        return math.nan
+
+
+UNARY_REF = {
+    "Abs": abs, "Relu": lambda x: x if math.isnan(x) else max(x, 0.0), "Sigmoid": _sigmoid, "Tanh": math.tanh,
+    "Sin": _safe(math.sin), "Cos": _safe(math.cos), "Tan": _safe(math.tan),
+    "Asin": _safe(math.asin), "Acos": _safe(math.acos), "Atan": math.atan,
+    "Sinh": _sinh, "Cosh": _cosh, "Asinh": math.asinh, "Acosh": _safe(math.acosh), "Atanh": _atanh,
+}
+
+
+def _f32(x):
+    try:
+        return struct.unpack("<f", struct.pack("<f", x))[0]
+    except OverflowError:
+        return math.copysign(math.inf, x)
+
+
+def unary_ref_check(c):
+    """C10 on the implementation's output alone (TESTING with tolerance): each element equals the named
+    function of the input element, shape and element type preserved, IEEE special values propagated"""
+    x = c["inputs"][0]
+    out = c["impl"]["outs"][0]
+    if list(out["shape"]) != list(x["shape"]) or out["dt"] != x["dt"]:
+        return "violates", "shape or element type not preserved"
+    f = UNARY_REF[c["op"]]
+    xs, ys = floats_of(x), floats_of(out)
+    if len(xs) != len(ys):
+        return "violates", "element count changed"
+    dt = x["dt"]
+    for a, y in zip(xs, ys):
+        ref = f(a)
+        if dt == "f32":
+            ref = _f32(ref)
+        # absolute slack: proportional to |argument| only for the periodic functions (argument reduction)
+        scale = max(1.0, abs(a)) if c["op"] in ("Sin", "Cos", "Tan") and math.isfinite(a) and abs(a) < 1e6 else 1.0
+        ok = float_close(ref, y, dt) or (math.isfinite(ref) and math.isfinite(y) and abs(ref - y) <= (1e-6 if dt == "f32" else 1e-14) * scale)
+        if dt == "f32" and not ok and math.isfinite(ref) and math.isfinite(y):
+            # results that are tiny or huge in float32 may legitimately flush / saturate by one ulp
+            ok = abs(ref - y) <= 2e-5 * max(abs(ref), abs(y)) + 1e-37
+        if not ok:
+            return "violates", f"{c['op']}({a!r}) = {y!r}, expected {ref!r}"
+    return "holds", ""
+
+
 def softmax_props(c):
     """C09 softmax clause, checked on the implementation's output alone: along the requested axis every
     Softmax slice is non-negative and sums to 1, LogSoftmax is its logarithm, finite inputs give finite
@@ -174,6 +261,8 @@ def judge_op(c):
                 verdict, what = "violates", "computed something else than the ONNX value instead of refusing"
         if verdict != "violates" and spec.get("pure") and impl.get("mut"):
             verdict, what = "violates", f"input modified: {impl.get('mut')}"
+    if verdict == "unjudged" and c.get("op") in UNARY_REF and impl["status"] == "ok" and c.get("inputs") and (c["inputs"][0] or {}).get("bits"):
+        verdict, what = unary_ref_check(c)
     if verdict == "unjudged" and c.get("op") in ("Softmax", "LogSoftmax") and impl["status"] == "ok" and c.get("p", {}).get("props"):
         verdict, what = softmax_props(c)
     tag = None
